@@ -124,6 +124,12 @@ pub fn check(c: &PosCase) -> Result<Verdict, String> {
         let r = after1.get(&c.addr).unwrap();
         return Err(format!("a single position frame {} (no valid partner: {}) changed the shown position to {:.5},{:.5}", f1.hex(), if c.prior.is_some() { "other slot is 30 s old" } else { "other slot never received" }, r.lat_f(), r.lon_f()));
     }
+    if c.variant == 3 {
+        // an earlier surface position squitter of the same aircraft (it took off since): both slots are refreshed by the
+        // airborne pair that follows, so the pair must decode as usual
+        let s = bits::es(17, 5, c.addr, bits::me_surfpos(6, 30, 1, 64, 0, (!c.first_odd) as u32, 60_000, 70_000));
+        run::run_lines(&c.opts, &t, &[s.hex()]).map_err(|e| format!("reader failed on {}: {:?}", s.hex(), e))?;
+    }
     let mut zeroed_slot = false;
     if c.variant == 1 && c.zero_field == 0 {
         // same parity as the first frame, longitude field exactly 0: the slot of that parity now says 'not received'
@@ -248,12 +254,12 @@ fn between_strategy(addr: u32) -> BoxedStrategy<Vec<Frame>> {
 }
 
 pub fn case_strategy() -> BoxedStrategy<PosCase> {
-    let delay = prop_oneof![4 => 0i64..=8, 2 => Just(9i64), 2 => Just(10i64), 1 => Just(11i64), 1 => Just(30i64)];
+    let delay = prop_oneof![8 => 0i64..=8, 4 => Just(9i64), 4 => Just(10i64), 2 => Just(11i64), 2 => Just(30i64), 1 => Just(86_400i64 - 4), 1 => Just(86_400i64 + 3), 1 => Just(2 * 86_400i64 - 2), 1 => Just(3600i64)];
     let obs = prop_oneof![1 => Just(None), 4 => (-89.0f64..89.0, -179.0f64..179.0, any::<u8>()).prop_map(|(a, b, s)| Some(((a * 1e4).round() / 1e4, (b * 1e4).round() / 1e4, s))), 1 => Just(Some((52.66411442720024, -8.622299905360963, 2u8)))];
     let prior = prop_oneof![2 => Just(None), 1 => (-80.0f64..80.0, -170.0f64..170.0).prop_map(Some)];
     (
         (any::<bool>(), obs, prior, lat_strategy(), lon_strategy(), -3000.0f64..3000.0, -3000.0f64..3000.0),
-        (any::<bool>(), delay, gen::addr().prop_flat_map(|a| (Just(a), between_strategy(a))), 9u32..=18, gen::ac12_any(), prop_oneof![12 => Just(0u8), 1 => 1u8..=4], prop_oneof![8 => Just(0u8), 1 => Just(1u8), 1 => Just(2u8)], 1i64..=12),
+        (any::<bool>(), delay, gen::addr().prop_flat_map(|a| (Just(a), between_strategy(a))), 9u32..=18, gen::ac12_any(), prop_oneof![12 => Just(0u8), 1 => 1u8..=4], prop_oneof![8 => Just(0u8), 1 => Just(1u8), 1 => Just(2u8), 1 => Just(3u8)], 1i64..=12),
     )
         .prop_map(|((u, observer, prior, lat, lon, dn, de), (first_odd, delay, (addr, between), tc, ac12, zero_field, variant, repeat_after))| PosCase {
             opts: Opts::quiet().with_u(u),
